@@ -1,6 +1,9 @@
 package jmespath
 
-import "sync"
+import (
+	"math"
+	"sync"
+)
 
 // C07: compiled expressions and Search are safe for concurrent use.
 // Decided by non-interference: if no path of Search / Compile /
@@ -129,4 +132,69 @@ func H_C07_compile() {
 	if err1 == nil {
 		vrtAssert(e1 != e2, "every Compile returns its own Expression")
 	}
+}
+
+// H_C07_faults: calls that fail at run time (values encoding/json refuses,
+// type errors, not-a-number results) interleaved with calls that succeed, on
+// one shared document built by the caller: a failing call may not leave
+// anything behind that a later or concurrent call can observe (error paths
+// are where pooled buffers and caches are released twice or half-filled).
+var c07Faulty = []string{"to_string(a[0])", "a[*].to_string(@)", "abs(a[2])", "a[0] + a[1]", "sort(a)", "to_string(c)", "a[1] / `0`", "join(',', a)", "[to_string(a[1]), to_string(c)]", "map(&to_string(@), a)"}
+var c07Sound = []string{"to_string(a[1])", "a[1:3].to_string(@)", "to_string(b)", "[to_string(a[1]), to_string(b)]", "join(',', [to_string(a[1]), a[2]])", "length(a)", "to_string(b.p)", "b.q[*].to_string(@) | join('', @)", "to_string(`[1, 2]`)"}
+
+func H_C07_faults() {
+	f := c07Faulty[vrtChoose("faulty", len(c07Faulty))]
+	s := c07Sound[vrtChoose("sound", len(c07Sound))]
+	vrtNote("template:" + f + " / " + s)
+	doc := map[string]any{
+		"a": []any{math.NaN(), 1.5, "x", map[string]any{"p": math.Inf(1)}},
+		"b": map[string]any{"p": 2.5, "q": []any{"u", int64(7), true}},
+		"c": map[string]any{"k": float32(math.Inf(-1)), "l": 1.0},
+	}
+	es, cerr := Compile(s)
+	ef, ferr := Compile(f)
+	if cerr != nil || ferr != nil {
+		vrtAssert(false, "templates compile")
+		return
+	}
+	want, werr := es.Search(doc)
+	fwant, fwerr := ef.Search(doc)
+	vrtMonitor(true)
+	if vrtSymbolic() {
+		_, _ = ef.Search(doc)
+		got, gerr := es.Search(doc)
+		vrtAssert(sameOutcome(want, werr, got, gerr, false), "a call returns something else after another call failed")
+		_, _ = Search(f, doc)
+		_, _ = ef.Search(doc)
+		got, gerr = Search(s, doc)
+		vrtAssert(sameOutcome(want, werr, got, gerr, false), "a call returns something else after other calls failed")
+	} else {
+		var wg sync.WaitGroup
+		bad := make([]bool, 8)
+		for g := 0; g < 8; g++ {
+			wg.Add(1)
+			go func(g int) {
+				defer wg.Done()
+				for i := 0; i < 300; i++ {
+					if (g+i)%3 == 0 {
+						r, err := ef.Search(doc)
+						if !sameOutcome(fwant, fwerr, r, err, false) {
+							bad[g] = true
+						}
+					} else {
+						r, err := es.Search(doc)
+						if !sameOutcome(want, werr, r, err, false) {
+							bad[g] = true
+						}
+					}
+				}
+			}(g)
+		}
+		wg.Wait()
+		for _, b := range bad {
+			vrtAssert(!b, "a concurrent call returned a different outcome than the call run alone")
+		}
+	}
+	vrtMonitor(false)
+	vrtAssert(vrtEventCount("sharedwrite") == 0, "a call wrote to state shared with concurrent calls (document, compiled expression, package-level variable or pooled object)")
 }
